@@ -937,8 +937,108 @@ func genRegistryLocks(root *pkgSrc) {
 		ow, ms, rb, sure := lsStorePair(root, fn)
 		fmt.Fprintf(&b, "  ⟨%s, %d, %d, %d, %s⟩%s  -- %s: %d order write(s), %d map store(s) after, %d return(s) between\n", leanText(fn), ow, ms, rb, leanBool(sure), sep, fn, ow, ms, rb)
 	}
-	b.WriteString("]\n\nend Mcp.Gen\n")
+	// entries are immutable once published: no assignment to a field of a registry entry (nor to the entry as a whole
+	// through a pointer) anywhere; entries are built by composite literals only
+	b.WriteString("]\n\n/-- Every assignment (plain, compound, increment or decrement) whose target is a field of a registry entry — `registeredTool`, `registeredPrompt`,\n    `registeredResource`, `registerResourceTemplate` — or a whole entry through a pointer: ⟨entry type, field (`*` = the whole\n    entry), function⟩. The request paths copy the entry pointer out under the read lock and use it after releasing it, so an\n    entry must never change once it is in a map. Whether the four entry types were found at all: `registryEntryTypesSeen`. -/\n")
+	ew, seen := lsEntryWrites(root, info)
+	b.WriteString("def registryEntryWrites : List EntryWrite := [\n")
+	for i, e := range ew {
+		sep := ","
+		if i == len(ew)-1 {
+			sep = ""
+		}
+		fmt.Fprintf(&b, "  ⟨%s, %s, %s⟩%s  -- %s.%s assigned in %s\n", leanText(e[0]), leanText(e[1]), leanText(e[2]), sep, e[0], e[1], e[2])
+	}
+	fmt.Fprintf(&b, "]\n\ndef registryEntryTypesSeen : Nat := %d\n\nend Mcp.Gen\n", seen)
 	writeIfChanged("RegistryLocks.lean", b.String())
+}
+
+var lsEntryTypes = []string{"registeredTool", "registeredPrompt", "registeredResource", "registerResourceTemplate"}
+
+// lsEntryWrites: assignments to fields of the registry entry types (or to `*p` with p a pointer to one), with the
+// enclosing function; and how many of the entry types are declared as structs in the package.
+func lsEntryWrites(root *pkgSrc, info *types.Info) (out [][3]string, typesSeen int) {
+	isEntry := map[string]bool{}
+	for _, t := range lsEntryTypes {
+		isEntry[t] = true
+	}
+	entryOf := func(e ast.Expr) string {
+		if tv, ok := info.Types[e]; ok {
+			if n := namedOf(tv.Type); isEntry[n] {
+				return n
+			}
+		}
+		return ""
+	}
+	for _, fname := range root.sortedFiles() {
+		for _, d := range root.files[fname].Decls {
+			switch x := d.(type) {
+			case *ast.GenDecl:
+				for _, sp := range x.Specs {
+					if ts, ok := sp.(*ast.TypeSpec); ok && isEntry[ts.Name.Name] {
+						if _, ok := ts.Type.(*ast.StructType); ok {
+							typesSeen++
+						}
+					}
+				}
+			case *ast.FuncDecl:
+				if x.Body == nil {
+					continue
+				}
+				fn := funcName(x)
+				target := func(l ast.Expr) {
+					for {
+						if p, ok := l.(*ast.ParenExpr); ok {
+							l = p.X
+							continue
+						}
+						break
+					}
+					switch t := l.(type) {
+					case *ast.SelectorExpr:
+						if n := entryOf(t.X); n != "" {
+							out = append(out, [3]string{n, t.Sel.Name, fn})
+						}
+					case *ast.StarExpr:
+						if n := entryOf(t.X); n != "" {
+							out = append(out, [3]string{n, "*", fn})
+						}
+					}
+				}
+				ast.Inspect(x.Body, func(n ast.Node) bool {
+					switch a := n.(type) {
+					case *ast.AssignStmt:
+						if a.Tok != token.DEFINE {
+							for _, l := range a.Lhs {
+								target(l)
+							}
+						}
+					case *ast.IncDecStmt:
+						target(a.X)
+					case *ast.UnaryExpr:
+						// &entry.Field handed out: somebody else may write through it
+						if a.Op == token.AND {
+							if sel, ok := a.X.(*ast.SelectorExpr); ok {
+								if n := entryOf(sel.X); n != "" {
+									out = append(out, [3]string{n, "&" + sel.Sel.Name, fn})
+								}
+							}
+						}
+					}
+					return true
+				})
+			}
+		}
+	}
+	sort.Slice(out, func(i, j int) bool {
+		for k := 0; k < 3; k++ {
+			if out[i][k] != out[j][k] {
+				return out[i][k] < out[j][k]
+			}
+		}
+		return false
+	})
+	return out, typesSeen
 }
 
 // lsStorePair: in a register function, the assignments to the receiver's *Order field, the element stores into the
